@@ -315,9 +315,14 @@ pub fn run_crl_case(case: &Value, idx: usize, seed: u64, pool: &mut KeyPool, out
 	if let Some(l) = &key.log {
 		l.lock().unwrap().messages.clear();
 	}
+	// the parameters are consumed by the call: their Debug rendering is what is compared with the returned object's
+	let params_before = format!("{:?}", params);
 	match guarded(|| params.signed_by(&issuer, &key.kp)) {
 		Outcome::Ok(crl) => {
-			out.event("Crl", &case_id, args, "Ok", "", crl_obs(crl.der(), key));
+			let mut obs = crl_obs(crl.der(), key);
+			obs["paramsEcho"] = json!(format!("{:?}", crl.params()) == params_before);
+			obs["pemEqDer"] = json!(crl.pem().ok().and_then(|t| crate::pemx::decode_strict(&t)).map(|d| d == crl.der().as_ref()).unwrap_or(false));
+			out.event("Crl", &case_id, args, "Ok", "", obs);
 			// independent revocation checkers, probed with certificates really issued under listed and
 			// unlisted serial numbers (CRLs with an issuing distribution point need matching certificate
 			// distribution points and are left to the structural clauses)
